@@ -74,7 +74,7 @@ MInit == /\ fr = <<Frame(Cfg.g, Cfg.A, Cfg.M, Cfg.af)>>
 
 \* the action Action< Rule > in family af: what the control dispatches after the body matched [beg, cur)
 ActKind(f) == IF f.A = 1 /\ Enabled(f.n) THEN AKindOf(f.n, f.af) ELSE 0
-UseGuard(f) == ActKind(f) \in {1, 3, 4, 5, 6}         \* has_apply || has_apply0_bool
+UseGuard(f) == ActKind(f) \in {1, 3, 4, 5, 6}         \* has_apply || has_apply0_bool   (2, 7: void apply0 -> no guard)
 \* rewind mode the body gets from match(): optional if match() took the guard, else the requested mode
 BodyM(f) == IF Enabled(f.n) /\ UseGuard(f) THEN 0 ELSE f.M
 
@@ -179,21 +179,29 @@ After ==
        len == cur - f.entry
        vid == Nodes[f.n].vid
        veto == v0 = 1 /\ ((kind = 3 /\ (len + vid) % 3 = 0) \/ (kind = 4 /\ vid % 3 = 0))
+       throws == v0 = 1 /\ ((kind \in {5, 6} /\ (len + vid) % 3 = 0) \/ (kind = 7 /\ vid % 3 = 0))
        v == IF veto THEN 0 ELSE v0
+       av == IF throws THEN 3 ELSE IF kind \in {1, 2, 5, 6, 7} THEN 0 ELSE IF veto THEN 2 ELSE 1
        actev == IF v0 = 1 /\ Enabled(f.n)
-                THEN (IF kind \in {1, 3} THEN <<EvAp(f.n, f.af, f.entry, cur, IF kind = 1 THEN 0 ELSE IF veto THEN 2 ELSE 1)>>
-                      ELSE IF kind \in {2, 4} THEN <<EvA0(f.n, f.af, cur, IF kind = 2 THEN 0 ELSE IF veto THEN 2 ELSE 1)>>
+                THEN (IF kind \in {1, 3, 5, 6} THEN <<EvAp(f.n, f.af, f.entry, cur, av)>>
+                      ELSE IF kind \in {2, 4, 7} THEN <<EvA0(f.n, f.af, cur, av)>>
                       ELSE <<>>)
                 ELSE <<>>
        c2 == IF v = 0 /\ f.mg >= 0 THEN f.mg ELSE cur       \* match()'s guard restores on failure
    IN
    /\ exc = NoExc /\ done = -1 /\ q = <<>> /\ f.pc = "after"
-   /\ cur' = c2
-   /\ q' = actev \o (IF Enabled(f.n) THEN <<EvHook(IF v = 1 THEN "su" ELSE "fa", f.n, cur)>> ELSE <<>>) \o <<EvEx(f.n, v, c2)>>
-   /\ IF Len(fr) = 1
-      THEN /\ fr' = <<>> /\ done' = v /\ ret' = v
-      ELSE /\ fr' = Pop /\ ret' = v /\ UNCHANGED done
-   /\ UNCHANGED exc
+   /\ IF throws
+      THEN \* the action throws: parse_error at the begin of the match (kind 6) or a foreign exception (kinds 5, 7)
+           /\ exc' = [who |-> IF kind = 6 THEN D!XActParseError ELSE D!XActForeign, at |-> f.entry, cls |-> IF kind = 6 THEN 1 ELSE 3]
+           /\ q' = actev
+           /\ fr' = SetTop([f EXCEPT !.pc = "thrown"])
+           /\ UNCHANGED <<cur, ret, done>>
+      ELSE /\ cur' = c2
+           /\ q' = actev \o (IF Enabled(f.n) THEN <<EvHook(IF v = 1 THEN "su" ELSE "fa", f.n, cur)>> ELSE <<>>) \o <<EvEx(f.n, v, c2)>>
+           /\ IF Len(fr) = 1
+              THEN /\ fr' = <<>> /\ done' = v /\ ret' = v
+              ELSE /\ fr' = Pop /\ ret' = v /\ UNCHANGED done
+           /\ UNCHANGED exc
 
 (* an exception in flight leaves one invocation per step: unwind hook, event xc; try_catch_return_false catches *)
 Unwind ==
@@ -207,12 +215,16 @@ Unwind ==
            /\ exc' = NoExc
            /\ fr' = SetTop([f EXCEPT !.pc = "after", !.i = 0])
            /\ UNCHANGED <<ret, q, done>>
-      ELSE /\ q' = (IF Enabled(f.n) /\ HasUnw /\ f.pc \in {"k", "k2", "thrown", "body"} THEN <<EvHook("uw", f.n, cur)>> ELSE <<>>)
-                   \o <<EvXc(f.n, exc.cls, cur)>>
-           /\ IF Len(fr) = 1
-              THEN fr' = <<>> /\ done' = 2
-              ELSE fr' = Pop /\ UNCHANGED done
-           /\ UNCHANGED <<cur, ret, exc>>
+      ELSE \* destructors run innermost first: the rule's own guard (seq, at, try_catch, ...) restores, then the unwind
+           \* guard of match() calls Control::unwind, then match()'s guard restores; only then does the observer's catch run
+           LET c1 == IF f.sv >= 0 THEN f.sv ELSE cur
+               c2 == IF f.mg >= 0 THEN f.mg ELSE c1
+           IN /\ q' = (IF Enabled(f.n) /\ HasUnw THEN <<EvHook("uw", f.n, c1)>> ELSE <<>>) \o <<EvXc(f.n, exc.cls, c2)>>
+              /\ cur' = c2
+              /\ IF Len(fr) = 1
+                 THEN fr' = <<>> /\ done' = 2
+                 ELSE fr' = Pop /\ UNCHANGED done
+              /\ UNCHANGED <<ret, exc>>
 
 \* the observer takes the oldest pending event
 Emit == /\ q # <<>> /\ q' = Tail(q) /\ UNCHANGED <<fr, cur, ret, exc, done>>
